@@ -6,17 +6,18 @@ import (
 
 // profile = relative weights of the history generator
 type profile struct {
-	name                                                      string
-	wBegin, wModify, wGet, wIter, wCommit, wDiscard           int
-	wFlush, wCompact, wL0L0, wDump, wSetDiscard, wMaxVersion  int
-	managed                                                   bool
-	nOps                                                      int
-	keys                                                      [][]byte
-	allVersions, reverse, prefix, since, expiry, discardBit   bool
-	nkeeps                                                    []int
-	detect                                                    bool
-	bigValues                                                 bool
-	monotone                                                  bool // managed: commit timestamps non-decreasing
+	name                                                     string
+	wBegin, wModify, wGet, wIter, wCommit, wDiscard          int
+	wFlush, wCompact, wL0L0, wDump, wSetDiscard, wMaxVersion int
+	managed                                                  bool
+	nOps                                                     int
+	keys                                                     [][]byte
+	allVersions, reverse, prefix, since, expiry, discardBit  bool
+	nkeeps                                                   []int
+	detect                                                   bool
+	bigValues                                                bool
+	monotone                                                 bool // managed: commit timestamps non-decreasing
+	deepFirst                                                bool // prefer compacting the deepest non-empty level
 }
 
 var keySetA = [][]byte{[]byte("a"), []byte("ab"), []byte("abc"), []byte("b"), {'b', 0}, {'b', 0xff}, []byte("c"), {0}, {0xff}, {0xff, 0xff}, []byte("ba"), []byte("a\x00b")}
@@ -38,7 +39,7 @@ func (c *Ctx) value(p *profile) []byte {
 // runHistory generates and executes one history; returns the hist (closed) for the case term
 func runHistory(c *Ctx, p *profile) (*hist, error) {
 	o := sysOpts{Managed: p.managed, Detect: p.detect, NKeep: p.nkeeps[c.Rng.Intn(len(p.nkeeps))], MaxLevels: 4,
-		VThreshold: 32, TableSize: int64(1<<10) << uint(c.Rng.Intn(3))}
+		VThreshold: 32, TableSize: int64(256) << uint(c.Rng.Intn(5)), BaseLevelSize: []int64{200, 600, 2 << 10, 8 << 10}[c.Rng.Intn(4)]}
 	h, err := newHist(c, o)
 	if err != nil {
 		return nil, err
@@ -162,7 +163,17 @@ func runHistory(c *Ctx, p *profile) (*hist, error) {
 		case r < p.wBegin+p.wModify+p.wGet+p.wIter+p.wCommit+p.wDiscard+p.wFlush+p.wCompact:
 			lvl := 0
 			if c.Rng.Intn(2) == 0 {
-				lvl = c.Rng.Intn(o.MaxLevels)
+				// a non-empty level, if any
+				d := h.db.VerifDump()
+				var ne []int
+				for l := range d {
+					if len(d[l]) > 0 {
+						ne = append(ne, l)
+					}
+				}
+				if len(ne) > 0 {
+					lvl = ne[c.Rng.Intn(len(ne))]
+				}
 			}
 			if _, err := h.compact(lvl, false, nil); err != nil {
 				return h, fmt.Errorf("compact: %w", err)
@@ -212,6 +223,9 @@ func runHistory(c *Ctx, p *profile) (*hist, error) {
 
 func runSysProfile(c *Ctx, mk func(i int) *profile) error {
 	c.Setup("Keys Spec Lsm Compact Iter Sys CorrSys", "run_case")
+	if err := runScenarios(c, c.Prop); err != nil {
+		return err
+	}
 	for i := 0; c.nCases < c.N; i++ {
 		p := mk(i)
 		h, err := runHistory(c, p)
